@@ -6,9 +6,10 @@
 # On success copies patch.diff, demo files and meta.json (+ confirm.json) to /verif/seeded/<prop>-<k>/.
 # usage: confirm_seed.sh <prop> <k>      (reads /tmp/seed/<prop>_out/<k>/)
 prop=$1; k=$2
-src=/tmp/seed/${prop}_out/$k
-wt=/tmp/confirm/${prop}-$k
-log=/tmp/confirm/${prop}-$k.log
+root=${SEED_SRC_ROOT:-/tmp/seed}; tag=${SEED_TAG:-}
+src=$root/${prop}_out/$k
+wt=/tmp/confirm/${prop}-$tag$k
+log=/tmp/confirm/${prop}-$tag$k.log
 mkdir -p /tmp/confirm
 exec > "$log" 2>&1
 export GOFLAGS=-mod=mod GOPROXY=off
@@ -18,19 +19,19 @@ cleanup() { git -C /repo worktree remove --force "$wt" 2>/dev/null; }
 trap cleanup EXIT
 cd "$wt"
 demo_cmd=$(python3 -c "import json;print(json.load(open('$src/meta.json'))['demo_cmd'])")
-demo_cmd=$(echo "$demo_cmd" | sed "s#\.\./${prop}_out#/tmp/seed/${prop}_out#g; s#/tmp/seed/${prop}\b\([^_]\)#$wt\1#g")
+demo_cmd=$(echo "$demo_cmd" | sed "s#\.\./${prop}_out#$root/${prop}_out#g; s#$root/${prop}\b\([^_]\)#$wt\1#g")
 echo "demo_cmd: $demo_cmd"
 # demo files
 copy_demo() { if [ -d "$src/demo" ]; then (cd "$src/demo" && find . -type f) | while read f; do mkdir -p "$wt/$(dirname $f)"; cp "$src/demo/$f" "$wt/$f"; done; fi; }
 rm_demo() { if [ -d "$src/demo" ]; then (cd "$src/demo" && find . -type f) | while read f; do rm -f "$wt/$f"; done; fi; }
 # 2a. without the change
 copy_demo
-( eval "$demo_cmd" ) > /tmp/confirm/${prop}-$k.demo_without.txt 2>&1; rc_without=$?
+( eval "$demo_cmd" ) > /tmp/confirm/${prop}-$tag$k.demo_without.txt 2>&1; rc_without=$?
 # 1. apply
 if ! git apply "$src/patch.diff"; then echo "RESULT patch-does-not-apply"; exit 1; fi
 if ! go build ./... ; then echo "RESULT does-not-build"; exit 1; fi
 # 2b. with the change
-( eval "$demo_cmd" ) > /tmp/confirm/${prop}-$k.demo_with.txt 2>&1; rc_with=$?
+( eval "$demo_cmd" ) > /tmp/confirm/${prop}-$tag$k.demo_with.txt 2>&1; rc_with=$?
 echo "demo rc without=$rc_without with=$rc_with"
 rm_demo
 # 3. baseline with only the source change
@@ -41,7 +42,7 @@ ok=1
 [ $rc_with -ne 0 ] || ok=0
 echo "$base" | grep -q "not passing: 0" || ok=0
 if [ $ok -eq 1 ]; then
-  dst=/verif/seeded/${prop}-$k
+  dst=/verif/seeded/${prop}-$tag$k
   mkdir -p "$dst"
   cp "$src/patch.diff" "$dst/patch.diff"
   [ -d "$src/demo" ] && cp -r "$src/demo" "$dst/"
